@@ -199,33 +199,46 @@ def build_writer(spec):
     return w, origs
 
 
-def write_out(w):
-    """-> (wire bytes, [(binary_headers, wire body, identity)] per part, declared size)"""
+class FramingError(Exception):
+    pass
+
+
+def write_out(w, origs):
+    """-> (wire bytes, [(binary_headers, wire body, identity)] per part, declared size).  The parts are located in
+    the written bytes themselves (not by write() call boundaries): opening delimiter, the payload's header block,
+    the content (known for identity parts, up to the next delimiter for encoded ones), CRLF; closing delimiter."""
     rec = _Rec()
     drive(w.write(rec), _NoStream)
     wire = b"".join(rec.calls)
     opening = b"--" + w._boundary + b"\r\n"
     closing = b"--" + w._boundary + b"--\r\n"
+    delim = b"\r\n--" + w._boundary
     parts = []
-    i = 0
-    calls = rec.calls
-    for (pl, enc, te) in w._parts:
-        if i >= len(calls) or calls[i] != opening:
-            raise AssertionError("writer framing: opening delimiter write not found")
+    pos = 0
+    for (pl, enc, te), orig in zip(w._parts, origs):
+        if not wire.startswith(opening, pos):
+            raise FramingError(f"opening delimiter expected at offset {pos}")
+        pos += len(opening)
         bh = pl._binary_headers
-        if calls[i + 1] != bh:
-            raise AssertionError("writer framing: header write not found")
-        j = i + 2
-        body = []
-        while j < len(calls):
-            if calls[j] == b"\r\n" and j + 1 < len(calls) and calls[j + 1] in (opening, closing):
-                nxt_is_last = len(parts) == len(w._parts) - 1
-                if (calls[j + 1] == closing) == nxt_is_last or calls[j + 1] == opening:
-                    break
-            body.append(calls[j])
-            j += 1
-        parts.append((bh, b"".join(body), not (enc or te)))
-        i = j + 1
+        if not wire.startswith(bh, pos):
+            raise FramingError(f"header block of the part expected at offset {pos}")
+        pos += len(bh)
+        if enc or te:
+            end = wire.find(delim, pos)
+            if end < 0:
+                raise FramingError(f"no delimiter after the encoded content starting at offset {pos}")
+            body = wire[pos:end]
+        else:
+            body = orig
+            if not wire.startswith(body, pos):
+                raise FramingError(f"content of the identity part expected at offset {pos}")
+        pos += len(body)
+        if not wire.startswith(b"\r\n", pos):
+            raise FramingError(f"CRLF expected after the content at offset {pos}")
+        pos += 2
+        parts.append((bh, body, not (enc or te)))
+    if wire[pos:] != closing:
+        raise FramingError(f"closing delimiter expected at offset {pos}")
     return wire, parts, w.size
 
 
@@ -714,11 +727,34 @@ def model_writer_lines(boundary: bytes, wparts):
             "SPEC %s %s" % (fw.hexs(boundary), fw.hexs(wire))]
 
 
+def merge_headers(obs: str) -> str:
+    """the model lists raw (name, value) pairs; part.headers (HeadersDictProxy) shows one item per distinct spelling
+    of a name, its value being all values of that name (case-insensitive) joined by ', '"""
+    out = []
+    for tok in obs.split(" | "):
+        f = tok.split(" ")
+        if f[0] == "P" and f[1] != "-" and len(f) == 4:
+            pairs = [tuple(x.split("=")) for x in f[1].split(";")]
+            names = [bytes.fromhex(k) for k, _ in pairs]
+            if len({n.lower() for n in names}) != len(names):
+                seen, merged = set(), []
+                for k, _ in pairs:
+                    if k in seen:
+                        continue
+                    seen.add(k)
+                    low = bytes.fromhex(k).lower()
+                    vals = [fw.unhex(v) for kk, v in pairs if bytes.fromhex(kk).lower() == low]
+                    merged.append(k + "=" + (b", ".join(vals).hex() or "-"))
+                f[1] = ";".join(merged)
+        out.append(" ".join(f))
+    return " | ".join(out)
+
+
 def compare_obs(model, impl: str):
     """None = agree / not comparable, else a short reason"""
     if model is None or model.endswith("UNMODELLED"):
         return None
-    m = model.replace("ERR FUEL", "NONTERMINATION")
+    m = merge_headers(model.replace("ERR FUEL", "NONTERMINATION"))
     if m == impl:
         return None
     return "observables differ"
@@ -732,9 +768,19 @@ def suite_roundtrip(ctx, exe, specs=None):
         spec = gen_spec(rng, ctx.quick)
         try:
             w, origs = build_writer(spec)
-            wire, wparts, size = write_out(w)
         except (ValueError, AssertionError, TypeError) as e:
             ctx.count("writer:refused")
+            continue
+        try:
+            wire, wparts, size = write_out(w, origs)
+        except AssertionError:
+            # MultipartWriter.write asserts `"name=" in Content-Disposition`; a non-ASCII field name with
+            # quote_fields=True is written as `name*=...` and trips it: no body is produced (noted, not a C19 case)
+            ctx.count("writer:assertion-in-write")
+            continue
+        except FramingError as e:
+            report(ctx, {"suite": "writer", "spec": spec}, [("framing", f"the written bytes are not delimiter + headers + content + CRLF per part: {e}", {})])
+            ctx.case(("framing", json.dumps(spec, sort_keys=True)))
             continue
         ctype = w.headers["Content-Type"]
         blen = len(spec["boundary"]) + 4
@@ -944,7 +990,10 @@ def replay_case(exe, case):
     if suite in ("roundtrip",):
         spec = case["spec"]
         w, origs = build_writer(spec)
-        wire, wparts, size = write_out(w)
+        try:
+            wire, wparts, size = write_out(w, origs)
+        except FramingError as e:
+            return {"impl": "framing", "bad": [("framing", f"the written bytes are not delimiter + headers + content + CRLF per part: {e}", {})], "violates": True}
         segs = segs_from_lens(wire, case["segs"])
         rec = impl_run(w.headers["Content-Type"], segs, case["eager"], case["sched"], case.get("limits") or {})
         bad = oracle_roundtrip(spec, origs, wparts, wire, size, rec, case["sched"])
@@ -976,7 +1025,10 @@ def replay_case(exe, case):
     if suite == "writer":
         spec = case["spec"]
         w, origs = build_writer(spec)
-        wire, wparts, size = write_out(w)
+        try:
+            wire, wparts, size = write_out(w, origs)
+        except FramingError as e:
+            return {"impl": "framing", "bad": [("framing", str(e), {})], "violates": True}
         bad = [("size", f"declared size {size} != {len(wire)} bytes written", {})] if size is not None and size != len(wire) else []
         return {"impl": f"size={size} written={len(wire)}", "bad": bad, "violates": bool(bad)}
     return {"violates": None, "note": "unknown suite"}
@@ -1053,8 +1105,8 @@ def suite_mutants(ctx, exe):
             spec["kind"] = "form-data"
         try:
             w, origs = build_writer(spec)
-            wire, wparts, size = write_out(w)
-        except (ValueError, AssertionError, TypeError):
+            wire, wparts, size = write_out(w, origs)
+        except (ValueError, AssertionError, TypeError, FramingError):
             continue
         ctype = w.headers["Content-Type"]
         boundary = spec["boundary"].encode("ascii")
